@@ -273,6 +273,8 @@ theorem C16_conn_inv_step (n : Net) (op : Op) (hi : ConnInv n) : ConnInv (step n
   have r : ∀ j (a : Node), ConnShr j a a := F.refl
   cases op with
   | enableUser y u => exact connInv_of_rel (F.toPre.enableUser n y u (fun a => r y a)) (step_nextId_mono n (.enableUser y u)) hi
+  | addUserBypass y u p adm =>
+    exact connInv_of_rel (F.toPre.addUserBypass n y u p adm (fun a _ => r y a)) (step_nextId_mono n (.addUserBypass y u p adm)) hi
   | localLogin y u p => simp only [step]; rw [opLocalLogin_fst]; exact connInv_localLogin n y u p hi
   | localLogout y => exact connInv_of_rel (F.localLogout n y) (step_nextId_mono n (.localLogout y)) hi
   | tick => exact connInv_of_rel (F.tick n) (step_nextId_mono n .tick) hi
